@@ -266,3 +266,40 @@ MANIFEST_TEXT["C13"] = dict(
     text="Unbounded Lean theorems for every List/GList state with non-empty identifiers (an invariant of all reachable states): insert_index/delete_index/insert/insert_after/insert_before act exactly like the "
          "corresponding Vec operation on read(); all other elements keep their order; the generated op is never gated at its origin. Uses C14 density. Model tied to the code by differential histories and deserialised states.",
     note=NOTE, technique="Lean 4 proof (sorted-association-list insertion lemmas + identifier density) + differential correspondence check", design_ref="DESIGN.md §7 C13")
+
+# --------------------------------------------------------------------------------------------
+# C15 (MerkleReg)
+# --------------------------------------------------------------------------------------------
+PROPS["C15"] = dict(
+    lean_targets=["CrdtModel.Props.C15"],
+    audit="CrdtModel/Audit/C15.lean",
+    required_theorems=[
+        "Crdt.C15.apply_recursion_equation", "Crdt.C15.state_function_of_node_set", "Crdt.C15.apply_order_independent",
+        "Crdt.C15.dag_eq_visible", "Crdt.C15.orphans_eq_invisible", "Crdt.C15.roots_eq_heads", "Crdt.C15.read_eq_heads",
+        "Crdt.C15.visible_closed", "Crdt.C15.visible_least", "Crdt.C15.visibleList_spec",
+        "Crdt.C15.orphan_becomes_visible", "Crdt.C15.orphan_stays", "Crdt.C15.noReadyOrphan",
+        "Crdt.C15.apply_preserves_noReadyOrphan", "Crdt.C15.write_resolves",
+        "Crdt.C15.validate_op_ok_iff", "Crdt.C15.validate_op_missing_iff",
+        "Crdt.C15.merge_comm", "Crdt.C15.merge_assoc", "Crdt.C15.merge_idem", "Crdt.C15.merge_is_union",
+        "Crdt.C15.duplicate_absorbed", "Crdt.C15.stale_merge_absorbed",
+    ],
+    profiles=[
+        dict(name="merkle_hist", quick=1500, thorough=30000),
+        dict(name="merkle_small_all_orders", quick=1700, thorough=20000),
+    ],
+    explanation="MerkleReg: the recursive apply is modelled on an explicit work list with a proved termination measure and shown to satisfy the Rust "
+                "recursion equation; representation theorem under NO delivery discipline (any arrival order, duplicates, merges of live/stale states): "
+                "dag = received nodes with all ancestors received (least fixed point `Visible`, with an executable iteration proved equivalent), "
+                "orphans = the rest, roots/read = heads; convergence, merge laws, duplicate absorption are corollaries. Correspondence: random DAG "
+                "histories and, for every DAG with <= 4 nodes (and random 5-node DAGs), ALL arrival permutations; hashes are abstract names on the model side, "
+                "real sha3 hashes on the crate side (printed by name).",
+    statement_coverage="full statement proved under the premise 'distinct nodes have distinct hashes' (hash injective on the nodes of the history)",
+    assumptions=["sha3 is collision-free on the nodes of the history (hash function abstract in the model)",
+                 "recursion depth / stack and running time are outside the model (see known finding: reversed chain overflows the stack)"],
+)
+MANIFEST_TEXT["C15"] = dict(
+    text="Unbounded Lean theorems: MerkleReg.apply (recursive; termination proved) makes the register a function of the set of nodes received, for every "
+         "derivable replica state (any arrival order incl. parents before children, duplicates, merges): dag = nodes whose ancestors were all received, "
+         "orphans = the others, read() = the heads; an orphan becomes visible in the very call that supplies its last missing ancestor; a write on top of "
+         "the heads read becomes the single head; validate_op reports the least missing child. Premise: no hash collision among the nodes of the history.",
+    note=NOTE, technique="Lean 4 proof (work-list invariant + representation relation) + differential correspondence check", design_ref="DESIGN.md §7 C15")
